@@ -15,7 +15,7 @@ from simkit.refmodel import RefLimiter
 ID = "C15"
 LEVEL = "exploration"
 BUDGET = {"quick": (3000, 35), "thorough": (800_000, 540)}
-RULE = ("program shapes {recursion, super() chain, callee exception caught, exception propagating, exception passing through a finally block (whose clean-up may itself call code that raises and handles another exception), generator "
+RULE = ("program shapes {recursion, super() chain, callee exception caught, exception propagating, exception passing through a finally block (whose clean-up may itself call code that raises and handles another exception), a loop over a python iterator, a handler / a finally that handles an exception of its own before the first one goes on, generator "
         "suspended/closed, nesting, leaf, configuration emptied while the invocation runs, agent shut down by the application in the middle of an invocation and started again before the next thread} x 1-3 span/capture tracepoints (method span, line span, method capture, line "
         "capture; fire_count 1 or unlimited) x 1-3 threads each running 1-4 shapes x thread-ident reuse x seeded "
         "schedules; non-trivial = a run with at least one span opened or one snapshot deferred; distinct = distinct "
@@ -104,6 +104,45 @@ def finner(tag, out):
         out.append(('fin', tag + '#', None))  #L:fin_line
     return 'never'
 
+class Count:
+    def __init__(self, n):
+        self.n = n
+        self.i = 0
+    def __iter__(self):
+        return self
+    def __next__(self):
+        if self.i >= self.n:
+            raise StopIteration
+        self.i += 1
+        return self.i
+
+def looper(tag, out):
+    t = 0
+    for v in Count(2):  #L:loop_line
+        t += v
+    return 'r' + tag
+
+def rollback(tag, out):
+    try:
+        thrower(tag + 'f', out)  #L:rb_call
+    except HostErr:
+        try:
+            raise KeyError('k' + tag)
+        except KeyError:
+            pass
+        raise
+    return 'never'
+
+def rollfin(tag, out):
+    try:
+        thrower(tag + 'f', out)  #L:rf_call
+    finally:
+        try:
+            raise KeyError('k' + tag)
+        except KeyError:
+            pass
+    return 'never'
+
 def quiet(tag, out):
     try:
         raise KeyError('k' + tag)
@@ -131,6 +170,12 @@ def drive(shape, tag, out):
             v = finner(tag, out)
         elif shape == 'fin2':
             v = finner2(tag, out)
+        elif shape == 'iter':
+            v = looper(tag, out)
+        elif shape == 'rollback':
+            v = rollback(tag, out)
+        elif shape == 'rollfin':
+            v = rollfin(tag, out)
         elif shape == 'swap':
             v = swapper(tag, out)
             restore_config()
@@ -155,16 +200,16 @@ def drive(shape, tag, out):
         out.append(('exc', tag, str(e)))
         if shape == 'pass':
             out.append(('exc', tag + 'p', str(e)))
-        if shape in ('fin', 'fin2'):
+        if shape in ('fin', 'fin2', 'rollback', 'rollfin'):
             out.append(('exc', tag + 'f', str(e)))
 
 def tmain(tid, acts, out):
     for j, shape in enumerate(acts):
         drive(shape, 't%d_%d' % (tid, j), out)
 '''
-SHAPES = ("rec", "super", "catch", "pass", "gen", "nest", "leaf", "swap", "hop", "fin", "fin2")
-FUNCS = ("rec", "work", "catcher", "passer", "thrower", "leaf", "usegen", "gen", "nest", "swapper", "hop", "halter", "finner", "finner2", "quiet")
-LINES = ("rec_call", "super_call", "catch_call", "pass_call", "gen_next", "nest_a", "nest_b", "leaf_body", "swap_a", "hop_call", "halt_a", "fin_call", "fin_line", "fin2_call", "fin2_line")
+SHAPES = ("rec", "super", "catch", "pass", "gen", "nest", "leaf", "swap", "hop", "fin", "fin2", "iter", "rollback", "rollfin")
+FUNCS = ("rec", "work", "catcher", "passer", "thrower", "leaf", "usegen", "gen", "nest", "swapper", "hop", "halter", "finner", "finner2", "quiet", "looper", "rollback", "rollfin")
+LINES = ("rec_call", "super_call", "catch_call", "pass_call", "gen_next", "nest_a", "nest_b", "leaf_body", "swap_a", "hop_call", "halt_a", "fin_call", "fin_line", "fin2_call", "fin2_line", "loop_line", "rb_call", "rf_call")
 # recursion that passes through a frame of ANOTHER source file (a decorator, visitor or dispatcher of a library)
 RELAY_SRC = "def relay(fn, *args):\n    res = fn(*args)\n    return res\n"
 GEN_FUNCS = ("gen",)
@@ -177,6 +222,7 @@ PINNED = (
     {"tps": [{"id": "tp0", "kind": "mcap", "fire_count": "1", "func": "rec"}], "threads": [["rec"]]},
     {"tps": [{"id": "tp0", "kind": "mcap", "fire_count": "1", "func": "work"}], "threads": [["super"]]},
     {"tps": [{"id": "tp0", "kind": "mcap", "fire_count": "-1", "func": "catcher"}], "threads": [["catch"]]},
+    {"tps": [{"id": "tp0", "kind": "mcap", "fire_count": "-1", "func": "rollfin"}], "threads": [["rollfin"]]},
     {"tps": [{"id": "tp1", "kind": "lcap", "fire_count": "1", "line": "pass_call"},
              {"id": "tp2", "kind": "mcap", "fire_count": "1", "func": "passer"}], "threads": [["pass"]]},
 )
